@@ -129,6 +129,61 @@ def rule_r1(chk, prog, cg, zone):
                           not handler_escapes(h),
                           'the containment handler re-raises or exits',
                           loc=m.loc(h), nontrivial=True)
+                # the handler must not fail itself: rendering the
+                # s-expression that was handed to the mutator recurses over
+                # its depth (Node.__str__), and depth is what made the
+                # mutator fail with RecursionError in the first place
+                tr = getattr(h, '_parent', None)
+                guarded_args = set()
+                if isinstance(tr, ast.Try):
+                    for b in tr.body:
+                        for c in ast.walk(b):
+                            if isinstance(c, ast.Call) and (
+                                    (isinstance(c.func, ast.Attribute)
+                                     and c.func.attr in PROTOCOL)
+                                    or (call_name(c) or '').split('.')[-1] in
+                                    ('apply_simp', )):
+                                for a in c.args:
+                                    if isinstance(a, ast.Name):
+                                        guarded_args.add(a.id)
+                rendered = []
+                for x in h.body:
+                    for y in ast.walk(x):
+                        if isinstance(y, ast.FormattedValue) and isinstance(
+                                y.value, ast.Name) and \
+                                y.value.id in guarded_args:
+                            rendered.append(y.value)
+                        elif isinstance(y, ast.Call) and call_name(y) in (
+                                'str', 'repr') and y.args and isinstance(
+                                    y.args[0], ast.Name) and \
+                                y.args[0].id in guarded_args:
+                            rendered.append(y.args[0])
+                        elif isinstance(y, ast.Call) and (call_name(
+                                y) or '').startswith('logging.'):
+                            for a in y.args[1:]:
+                                if isinstance(a, ast.Name) and \
+                                        a.id in guarded_args:
+                                    rendered.append(a)
+                        elif isinstance(y, ast.BinOp) and isinstance(
+                                y.op, ast.Mod):
+                            for a in ast.walk(y.right):
+                                if isinstance(a, ast.Name) and \
+                                        a.id in guarded_args:
+                                    rendered.append(a)
+                if guarded_args:
+                    chk.check('C04.R1', f'{modname}.{f._qualname}',
+                              f'handler of the guard around '
+                              f'{sorted(guarded_args)} does not render them',
+                              not rendered,
+                              'the containment handler formats '
+                              f'{sorted({r.id for r in rendered})}, the '
+                              's-expression handed to the mutator: '
+                              'Node.__str__ recurses over the nesting depth, '
+                              'so when the mutator failed with RecursionError '
+                              'on a deeply nested term the handler raises a '
+                              'second one, which escapes the guard and '
+                              'aborts the run', loc=m.loc(h),
+                              nontrivial=True)
 
     # a failure of one mutator must not cost the other mutators' candidates:
     # the handler of a try that sits directly in the loop over the mutators
@@ -982,6 +1037,144 @@ def rule_r7(chk, prog):
     chk.floor('C04.R7', 'returns feeding the pickled task payload', n, 2)
 
 
+# --------------------------------------------------------------------- R8
+MAIN_PROCESS_MODULES = ('cli', 'progress', 'strategy_ddmin',
+                        'strategy_hierarchical', 'checker', 'options',
+                        'tmpfiles', 'debug_utils', '__main__')
+# divisors that cannot be zero for a reason outside the function
+NONZERO_BY_CONTEXT = {
+    ('cli', 'ddsmt_main', 'os.path.getsize(options.args().infile)'):
+        'evaluated only when the result differs from the parsed input, and '
+        'an empty input file parses to the empty list, which cannot be '
+        'reduced',
+}
+
+
+def _nonzero_evidence(m, f, site, div):
+    if isinstance(div, ast.Constant):
+        return isinstance(div.value, (int, float)) and div.value != 0
+    if isinstance(div, ast.Call) and call_name(div) == 'max' and any(
+            isinstance(a, ast.Constant) and isinstance(
+                a.value, (int, float)) and a.value > 0 for a in div.args):
+        return True
+    if isinstance(div, ast.BinOp) and isinstance(div.op, ast.Add) and any(
+            isinstance(x, ast.Constant) and isinstance(
+                x.value, (int, float)) and x.value > 0
+            for x in (div.left, div.right)) and any(
+                isinstance(x, ast.Call) and call_name(x) == 'len'
+                for x in (div.left, div.right)):
+        return True
+    t = unparse(div)
+    facts = facts_at(f, site)
+    for (ft, pol) in facts:
+        ft = ft.replace(' ', '')
+        tt = t.replace(' ', '')
+        if pol and ft in (tt, f'{tt}!=0', f'{tt}>0', f'{tt}>=1', f'0<{tt}',
+                          f'0!={tt}'):
+            return True
+        if not pol and ft in (f'not{tt}', f'{tt}==0', f'0=={tt}',
+                              f'{tt}<=0', f'{tt}<1'):
+            return True
+    return False
+
+
+def rule_r8(chk, prog):
+    chk.rule('C04.R8', 'no division by a possibly-zero value in the code '
+             'that runs in the main process outside the per-mutator guards')
+    n = 0
+    for modname in MAIN_PROCESS_MODULES:
+        try:
+            m = prog.mod(modname)
+        except AnalysisError:
+            continue
+        for q, f in m.funcs.items():
+            for x in walk_no_nested(f):
+                div = None
+                if isinstance(x, ast.BinOp) and isinstance(
+                        x.op, (ast.Div, ast.FloorDiv, ast.Mod)):
+                    if isinstance(x.op, ast.Mod) and isinstance(
+                            x.left, (ast.JoinedStr, ast.Constant)) and not (
+                                isinstance(x.left, ast.Constant)
+                                and isinstance(x.left.value, (int, float))):
+                        continue  # string formatting
+                    div = x.right
+                elif isinstance(x, ast.AugAssign) and isinstance(
+                        x.op, (ast.Div, ast.FloorDiv, ast.Mod)):
+                    div = x.value
+                if div is None:
+                    continue
+                n += 1
+                ok = _nonzero_evidence(m, f, x, div)
+                why = ''
+                if not ok:
+                    from ..astutil import expand_locals
+                    src = unparse(expand_locals(f, div))
+                    why = NONZERO_BY_CONTEXT.get((modname, q, src))
+                    ok = why is not None
+                chk.check('C04.R8', f'{modname}.{q}', x, ok,
+                          f'"{unparse(x)}" divides by "{unparse(div)}", '
+                          'which is zero for some inputs (e.g. an input '
+                          'that has been reduced to nothing) and is not '
+                          'tested before: ZeroDivisionError in the main '
+                          'process aborts the run with a traceback',
+                          loc=m.loc(x), nontrivial=True,
+                          argument=why or 'divisor constant or tested')
+    chk.floor('C04.R8', 'divisions in main-process code', n, 3)
+
+
+# --------------------------------------------------------------------- R9
+def rule_r9(chk, prog):
+    chk.rule('C04.R9', 'option post-processing runs before check_options '
+             'has validated anything: an element of a list-valued option '
+             'is accessed only under a test that the list is non-empty')
+    m = prog.mod('options')
+    n = 0
+    for q, f in m.funcs.items():
+        # names bound to the parsed namespace
+        ns = set()
+        for st in walk_no_nested(f):
+            if isinstance(st, ast.Assign) and isinstance(
+                    st.value, ast.Call) and isinstance(
+                        st.value.func, ast.Attribute) and \
+                    st.value.func.attr in ('parse_args',
+                                           'parse_known_args'):
+                for t in st.targets:
+                    for y in ast.walk(t):
+                        if isinstance(y, ast.Name):
+                            ns.add(y.id)
+        if not ns:
+            continue
+        for x in walk_no_nested(f):
+            if not (isinstance(x, ast.Subscript) and isinstance(
+                    x.value, ast.Attribute) and isinstance(
+                        x.value.value, ast.Name) and x.value.value.id in ns
+                    and not isinstance(x.slice, ast.Slice)):
+                continue
+            n += 1
+            base = unparse(x.value)
+            facts = facts_at(f, x)
+            ok = False
+            # a truthiness test of the list itself, not invalidated by a
+            # later rebinding of the attribute (facts_at kills those)
+            for (ft, pol) in facts:
+                if pol and ft in (base, f'len({base}) > 0',
+                                  f'len({base}) >= 1'):
+                    ok = True
+                if not pol and ft in (f'not {base}', f'len({base}) == 0'):
+                    ok = True
+            chk.check('C04.R9', f'options.{q}', x, ok,
+                      f'{unparse(x)} is evaluated while the options are '
+                      f'being parsed; {base} can be empty (no command given, '
+                      'a blank string split into words) and nothing has '
+                      'been validated yet: IndexError with a traceback '
+                      'instead of the one-line usage error', loc=m.loc(x),
+                      nontrivial=True)
+    chk.instance('C04.R9', 'options', 'element accesses on the parsed '
+                 f'namespace during option processing: {n}', True,
+                 'all guarded' if n else 'none on this tree',
+                 nontrivial=False)
+
+
 def run(tier):
     prog = Program()
     chk = Check(
@@ -1018,6 +1211,8 @@ def run(tier):
     chk.guard(rule_r4, chk, prog)
     chk.guard(rule_r5, chk, prog)
     chk.guard(rule_r7, chk, prog)
+    chk.guard(rule_r8, chk, prog)
+    chk.guard(rule_r9, chk, prog)
     # an interrupt must reach main()'s handler (status 1): shared with C06.R3
     from . import c06
     sub = Check('C06', 'other', tier, [], [])
